@@ -137,6 +137,21 @@ class StoreDriver:
                 self.edited.discard(b)
                 s.request('GET', f'/media/index/{mfid}?csrf_token={s.mint("files")}&ajax=1')
             return r.status_code, 1 if mfid else 0, spk
+        if op == 'upload_raw':
+            # the upload alone, as a browser sends it (part type video/mp4 for *.mp4, whatever the track is); indexing is a separate call
+            spk = self._spk(st, a) or 9999
+            r = s.request('POST', f'/media/{spk}/blob?ajax=1',
+                          data={'csrf_token': s.mint('upload'), 'file': (io.BytesIO(self.content[b]), f'{b}.mp4', 'video/mp4')},
+                          content_type='multipart/form-data')
+            js = r.get_json(silent=True) or {}
+            if js.get('pk'):
+                self.edited.discard(b)
+            return r.status_code, 1 if js.get('pk') else 0, spk
+        if op == 'index':
+            mf = next((f for f in st['files'] if f['name'] == a), None)
+            mfid = mf['pk'] if mf else 9999
+            r = s.request('GET', f'/media/index/{mfid}?csrf_token={s.mint("files")}&ajax=1')
+            return r.status_code, 1 if r.status_code == 200 and mf else 0, mfid
         if op == 'delete_media':
             f = self._file(st, a)
             spk, mfid = (f['stream'], f['pk']) if f else (anyspk, 9999)
@@ -266,6 +281,9 @@ SCRIPTS = [
     # one key id written in several ways: one row, and the encrypted file is linked to it
     [('add_stream', 's1', ''), ('add_key', KIDS[1], 'upper'), ('add_key', KIDS[1], ''), ('add_key', KIDS[1], 'dashed'), ('upload', 's1', 'fe'),
      ('add_key', KIDS[0], 'dashed'), ('add_key', KIDS[0], '0x'), ('add_key', KIDS[0], ''), ('upload', 's1', 'fv'), ('set_tref', 's1', 'fv')],
+    # files that are uploaded but not (yet) indexed next to a serving stream: a subtitle track, a file that cannot be indexed
+    [('add_stream', 's1', ''), ('upload', 's1', 'fv'), ('set_tref', 's1', 'fv'), ('upload_raw', 's1', 'fa'), ('index', 'fa', ''),
+     ('upload_raw', 's1', 'fb'), ('upload_raw', 's1', 'fe'), ('index', 'fb', ''), ('delete_media', 'fb', ''), ('index', 'fe', '')],
     # multi-period stream life-cycle
     [('add_stream', 's1', ''), ('upload', 's1', 'fv'), ('set_tref', 's1', 'fv'), ('add_mps', 'mm1', 's1'), ('add_mps', 'mm1', 's1'),
      ('delete_mps', 'mm1', ''), ('delete_mps', 'mm1', ''), ('delete_stream', 's2', '')],
@@ -278,11 +296,13 @@ def random_history(rng: random.Random, n: int) -> list[tuple[str, str, str]]:
     h: list[tuple[str, str, str]] = [('add_stream', rng.choice(DIRS), '')]
     for _ in range(n):
         op = rng.choice(['add_stream', 'delete_stream', 'upload', 'upload', 'upload', 'delete_media', 'set_tref', 'set_tref',
-                         'add_key', 'delete_key', 'add_mps', 'delete_mps', 'edit_media', 'rename_stream'])
+                         'add_key', 'delete_key', 'add_mps', 'delete_mps', 'edit_media', 'rename_stream', 'upload_raw', 'index'])
         if op in ('add_stream', 'delete_stream'):
             h.append((op, rng.choice(DIRS), ''))
-        elif op == 'upload':
+        elif op in ('upload', 'upload_raw'):
             h.append((op, rng.choice(DIRS), rng.choice(NAMES)))
+        elif op == 'index':
+            h.append((op, rng.choice(NAMES), ''))
         elif op == 'set_tref':
             h.append((op, rng.choice(DIRS), rng.choice(NAMES[:2])))
         elif op == 'rename_stream':
